@@ -267,15 +267,18 @@ class G(object):
             for _ in range(n):
                 cond = self.boolean(scope, 1, 1)
                 body = [self.stmt(scope, depth, sdepth - 1, allow) for _ in range(r.randint(1, 2))]
-                arms.append([cond, [b for b in body if b]])
+                if cond is not None:
+                    arms.append([cond, [b for b in body if b]])
             els = None
             if r.random() < 0.5:
                 els = [b for b in [self.stmt(scope, depth, sdepth - 1, allow)] if b]
-            return ["if", arms, els]
+            if arms:
+                return ["if", arms, els]
         if "imp" in allow and sdepth > 0 and c < 0.26:
             cond = self.boolean(scope, 1, 1)
             body = [self.stmt(scope, depth, sdepth - 1, allow) for _ in range(r.randint(1, 2))]
-            return ["imp", cond, [b for b in body if b]]
+            if cond is not None:
+                return ["imp", cond, [b for b in body if b]]
         if "uniq" in allow and c < 0.33:
             ints = self.leaves(scope, None)
             if len(ints) >= 2:
@@ -1340,3 +1343,100 @@ def order_pair(rng):
         progs.append({"enums": {}, "classes": {"C0": {"base": None, "fields": copy.deepcopy(fields), "blocks": blocks}}, "top": "C0",
                       "vary": vary})
     return progs
+
+
+# ---------------------------------------------------------------------------
+# wide programs with a planted witness (widths up to 64)
+# ---------------------------------------------------------------------------
+
+def wide_program(rng):
+    """fields of 8..64 bits; every class statement is (re)generated until the reference evaluates it to true on a
+    drawn witness assignment, so the program is known to be satisfiable without enumerating anything"""
+    r = rng
+    g = G(rng, 400)
+    fields = []
+    for i in range(r.randint(2, 5)):
+        w = r.choice([8, 12, 16, 24, 31, 32, 33, 48, 63, 64])
+        fields.append({"n": "f%d" % i, "k": "int", "w": w, "s": r.random() < 0.35, "r": True})
+    for i in range(r.choice([0, 1, 2])):
+        w = r.choice([8, 16, 32, 64])
+        sg = r.random() < 0.3
+        fields.append({"n": "k%d" % i, "k": "int", "w": w, "s": sg, "r": False, "i": g.rand_val(w, sg)})
+    if r.random() < 0.3:
+        g.mk_enum("E0")
+        fields.append({"n": "e0", "k": "enum", "e": "E0", "r": True})
+    prog = {"enums": g.enums, "classes": {"C0": {"base": None, "fields": fields, "blocks": []}}, "top": "C0"}
+    scope = scope_of(prog, "C0")
+    st0 = R.new_state(prog, "C0")
+    call0 = R.Call(prog, st0)
+    wit = {}
+    for p, t in call0.rand_leaves:
+        if t[0] == "enum":
+            wit[p] = r.choice([m for m, _ in g.enums[t[1]]])
+        else:
+            w, sg = t[1], t[2]
+            lo, hi = (-(1 << (w - 1)), (1 << (w - 1)) - 1) if sg else (0, (1 << w) - 1)
+            wit[p] = r.choice([r.randint(lo, hi), r.randint(max(lo, -100), min(hi, 100)), lo, hi, 0])
+
+    def lit_near(fd):
+        """literal close to the witness value of a field (so that relational statements are tight)"""
+        v = wit.get((fd["n"],), 0)
+        d = r.choice([0, 0, 1, -1, 5, -7, 1000])
+        x = v + d
+        if fd["s"]:
+            x = max(-(1 << (fd["w"] - 1)), min((1 << (fd["w"] - 1)) - 1, x))
+            if -(1 << 31) <= x < (1 << 31) and r.random() < 0.5:
+                return ["c", x]
+            return ["s", x, fd["w"]]
+        x = max(0, min((1 << fd["w"]) - 1, x))
+        if x < (1 << 31) and r.random() < 0.4 and fd["w"] <= 32:
+            return ["c", x]
+        return ["u", x, fd["w"]]
+
+    def stmt():
+        ints = [(p, fd) for p, fd in scope if fd["k"] == "int"]
+        p, fd = r.choice([x for x in ints if x[1]["r"]] or ints)
+        c = r.random()
+        if c < 0.45:
+            return ["e", ["b", r.choice(["<", "<=", ">", ">=", "==", "!="]), ["f", list(p)], lit_near(fd)]]
+        if c < 0.65:
+            same = [(q, qd) for q, qd in ints if qd["s"] == fd["s"] and q != p]
+            if same:
+                q, qd = r.choice(same)
+                return ["e", ["b", r.choice(["<", "<=", ">", ">=", "!=", "=="]), ["f", list(p)], ["f", list(q)]]]
+        if c < 0.8:
+            # a range written with two expression objects (vsc.unsigned / vsc.signed) as bounds is paired through the
+            # shared expression stack in the wrong order: ranges are only written with bare ints (32-bit), wide values
+            # as single sized literals
+            v = wit.get(p, 0)
+            items = [lit_near(fd), lit_near(fd)]
+            if -(1 << 30) < v < (1 << 30):
+                lo_t = -(1 << (fd["w"] - 1)) if fd["s"] else 0
+                a = max(lo_t, v - r.randint(0, 9))
+                items.append(["rng", ["c", a], ["c", v + r.randint(0, 9)]])
+            r.shuffle(items)
+            return ["e", ["in", ["f", list(p)], items]]
+        if c < 0.9:
+            hi = r.randint(0, fd["w"] - 1)
+            lo = r.randint(max(0, hi - 12), hi)
+            v = wit.get(p, 0)
+            bits = ((v & ((1 << fd["w"]) - 1)) >> lo) & ((1 << (hi - lo + 1)) - 1)
+            return ["e", ["b", "==", ["ps", list(p), hi, lo], ["u", bits, hi - lo + 1]]]
+        e = g.cmp(scope, 1)
+        return ["e", e] if e else None
+    nb = r.choice([1, 2])
+    for bi in range(nb):
+        st = []
+        for _ in range(r.randint(1, 3)):
+            for _try in range(8):
+                s = stmt()
+                if s is None:
+                    continue
+                try:
+                    if R.stmt_holds(s, R.Ctx(prog, st0, (), wit)):
+                        st.append(s)
+                        break
+                except R.Corner:
+                    continue
+        prog["classes"]["C0"]["blocks"].append({"n": "c%d" % bi, "st": st})
+    return prog, g, {"/".join(map(str, p)): v for p, v in wit.items()}
